@@ -2,43 +2,72 @@
    files evaluated with vm_compute). *)
 From SV Require Export Checkers.AllocChk.
 
-(* model transcript; ends with [9] at the first stuck state *)
+(* sorting of uid lists (canonical order where the real order is unspecified) *)
+Fixpoint ins_sorted (x : N) (l : list N) : list N :=
+  match l with
+  | [] => [x]
+  | y :: l' => if N.leb x y then x :: l else y :: ins_sorted x l'
+  end.
+Definition sort_n (l : list N) : list N := fold_right ins_sorted [] l.
+
+Definition is_hash_sid (sid : N) : bool :=
+  match kind_of sid with Some (KHash, _) => true | _ => false end.
+
+(* drops in chronological order; sorted where the real order is unspecified:
+   HashMap::clear, and the order in which a dropped World destroys its resources *)
+Definition canon_drops (o : op) (c : ctx) : list N :=
+  let d := rev (cx_drops c) in
+  match o with
+  | ODropWorld => sort_n d
+  | OStore (SClear sid) => if is_hash_sid sid then sort_n d else d
+  | _ => d
+  end.
+
+Definition enc_effects (o : op) (c : ctx) : list Z :=
+  let d := canon_drops o c in
+  10%Z :: Z.of_N (cx_mints c) :: Z.of_nat (length d) :: map Z.of_N d.
+
+(* model transcript: per op the output and the effects; ends with [9] at the
+   first stuck state; nothing after the world was dropped *)
 Fixpoint enc_run (fixed : bool) (w : world) (os : list op) : list (list Z) :=
   match os with
   | [] => []
   | o :: os' =>
       let '(w1, out) := wstep fixed w o in
-      if w_is_stuck w1 then [[9%Z]] else enc_out out :: enc_run fixed w1 os'
+      if w_is_stuck w1 then [[9%Z]]
+      else enc_out out :: enc_effects o (se_cx (w_env w1)) ::
+           match o with ODropWorld => [] | _ => enc_run fixed w1 os' end
   end.
 
 Definition model_transcript (fixed : bool) (h : list Z) : list (list Z) :=
   enc_run fixed w_init (decode_history h).
 
-(* pair the ops with the decoded outputs of an observed transcript; stops at
-   the first undecodable output (e.g. the panic marker) *)
-Fixpoint pair_tr (os : list op) (t : list (list Z)) : list (op * wout) :=
+(* pair the ops with the decoded outputs (and raw effect entries) of an observed
+   transcript; stops at the first undecodable output (e.g. the panic marker) *)
+Fixpoint pair_tr (os : list op) (t : list (list Z)) : list (op * wout * list Z) :=
   match os, t with
-  | o :: os', x :: t' => match dec_out x with Some out => (o, out) :: pair_tr os' t' | None => [] end
+  | o :: os', x :: eff :: t' =>
+      match dec_out x with
+      | Some out => (o, out, eff) :: match o with ODropWorld => [] | _ => pair_tr os' t' end
+      | None => []
+      end
   | _, _ => []
+  end.
+
+Fixpoint ops_until_drop (os : list op) : list op :=
+  match os with
+  | [] => []
+  | ODropWorld :: _ => [ODropWorld]
+  | o :: os' => o :: ops_until_drop os'
   end.
 
 Fixpoint zlists_eqb (a b : list (list Z)) : bool :=
   match a, b with
   | [], [] => true
-  | x :: a', y :: b' =>
-      (fix eq (x y : list Z) := match x, y with
-         | [], [] => true
-         | u :: x', v :: y' => Z.eqb u v && eq x' y'
-         | _, _ => false end) x y && zlists_eqb a' b'
+  | x :: a', y :: b' => zlist_eqb x y && zlists_eqb a' b'
   | _, _ => false
   end.
 
-(* verdict on an observed transcript:
-   [ complete; acc_pos; acc_code; c01_direct; c02_direct ]
-   complete = every output decoded (no panic, lengths agree);
-   acc_code = 0 accepted, 1 output differs from the specification's,
-              2 invalid choice (occupied cell), 3 invalid choice (fresh index
-              while a free one exists or not the next index) *)
 Fixpoint has_dup (l : list N) : bool :=
   match l with [] => false | x :: l' => existsb (N.eqb x) l' || has_dup l' end.
 
@@ -49,18 +78,51 @@ Definition reject_code (w : sworld) (out : wout) : Z :=
   let cs := choices_of out in
   if existsb (fun i => occupied (cell (s_life w) i)) cs || has_dup cs then 2%Z else 3%Z.
 
-Fixpoint saccept_z (w : sworld) (tr : list (op * wout)) (pos : Z) : Z * Z :=
-  match tr with
-  | [] => ((-1)%Z, 0%Z)
-  | (o, out) :: tr' =>
-      let '(w1, out1) := sstep w o (choices_of out) in
-      if negb (s_ok w1) then (pos, reject_code w out)
-      else if wout_eqb out out1 then saccept_z w1 tr' (pos + 1)%Z else (pos, 1%Z)
+(* specification-level comparison of outputs: slice views are representation
+   specific and are not compared *)
+Definition wout_eqb_spec (x y : wout) : bool :=
+  match x, y with
+  | WSlice _, WSlice _ => true
+  | _, _ => wout_eqb x y
   end.
 
+(* specification-level view of the effects: the destroyed values as a multiset,
+   default-made values excluded (how many defaults a storage keeps is its own business) *)
+Definition spec_drops (l : list N) : list N := sort_n (filter (fun u => negb (N.eqb u default_uid)) l).
+
+Definition dec_effect_drops (eff : list Z) : list N :=
+  match eff with
+  | _ :: _ :: _ :: d => map Z.to_N d
+  | _ => []
+  end.
+
+Fixpoint nlist_eqb (a b : list N) : bool :=
+  match a, b with
+  | [], [] => true
+  | x :: a', y :: b' => N.eqb x y && nlist_eqb a' b'
+  | _, _ => false
+  end.
+
+(* acceptance by the specification (lifecycle allocator + plain-map storages):
+   (position, code): 0 accepted, 1 output differs, 2/3 invalid choice, 4 destroyed values differ *)
+Fixpoint saccept_z (w : sworld) (tr : list (op * wout * list Z)) (pos : Z) : Z * Z :=
+  match tr with
+  | [] => ((-1)%Z, 0%Z)
+  | (o, out, eff) :: tr' =>
+      let '(w1, out1) := sstep w o (choices_of out) in
+      if negb (s_ok w1) then (pos, reject_code w out)
+      else if negb (wout_eqb_spec out out1) then (pos, 1%Z)
+      else if negb (nlist_eqb (spec_drops (dec_effect_drops eff))
+                              (spec_drops (rev (cx_drops (se_cx (s_env w1)))))) then (pos, 4%Z)
+      else saccept_z w1 tr' (pos + 1)%Z
+  end.
+
+(* verdict on an observed transcript:
+   [ complete; acc_pos; acc_code; c01_direct; c02_direct ] *)
 Definition verdict (h : list Z) (t : list (list Z)) : list Z :=
-  let os := decode_history h in
-  let tr := pair_tr os t in
+  let os := ops_until_drop (decode_history h) in
+  let tr3 := pair_tr os t in
+  let tr := map (fun x => (fst (fst x), snd (fst x))) tr3 in
   let complete := Nat.eqb (length tr) (length os) in
-  let '(p, c) := saccept_z s_init tr 0%Z in
+  let '(p, c) := saccept_z (s_init_env true) tr3 0%Z in
   [enc_bool complete; p; c; enc_bool (c01_direct tr); enc_bool (c02_direct tr)].
